@@ -357,6 +357,16 @@ OP(runtime_info) {
     c.emit(v); c.emit(n, strlen(n));
 }
 
+static void verif_misuse_handler(void) {}
+// public API that is rarely called but must be as thread-safe as the rest: installing the (same) misuse handler takes
+// the library lock; stir/close of the installed random source touch only per-thread state on this platform
+OP(misuse_handler) { int r; { LibScope l; r = sodium_set_misuse_handler(verif_misuse_handler); } c.emit(r); }
+OP(rng_stir_close) {
+    unsigned char *b = c.buf(24); int r;
+    { LibScope l; randombytes_stir(); randombytes_buf(b, 12); r = randombytes_close(); randombytes_buf(b + 12, 12); }
+    c.emit(b, 24); c.emit(r);
+}
+
 const OpDesc OPS[] = {
     {"sha256", op_sha256}, {"sha512", op_sha512}, {"sha256_multi", op_sha256_multi}, {"generichash", op_generichash}, {"generichash_multi", op_generichash_multi},
     {"auth", op_auth}, {"auth_hmacsha512", op_auth_hmacsha512}, {"shorthash", op_shorthash}, {"onetimeauth", op_onetimeauth}, {"stream_chacha20", op_stream_chacha20},
@@ -366,7 +376,7 @@ const OpDesc OPS[] = {
     {"ed25519_core", op_ed25519_core}, {"ristretto_random", op_ristretto_random}, {"ed25519_random", op_ed25519_random}, {"kx", op_kx}, {"kdf", op_kdf}, {"hkdf", op_hkdf},
     {"secretstream", op_secretstream}, {"pwhash_argon2id", op_pwhash_argon2id}, {"pwhash_argon2i", op_pwhash_argon2i}, {"pwhash_str", op_pwhash_str}, {"scrypt_ll", op_scrypt_ll},
     {"codecs", op_codecs}, {"padding", op_padding}, {"utils", op_utils}, {"randombytes", op_randombytes}, {"randombytes_small", op_randombytes_small}, {"keygens", op_keygens},
-    {"guarded_alloc", op_guarded_alloc}, {"guarded_allocarray", op_guarded_allocarray}, {"mlock", op_mlock}, {"runtime_info", op_runtime_info},
+    {"guarded_alloc", op_guarded_alloc}, {"guarded_allocarray", op_guarded_allocarray}, {"mlock", op_mlock}, {"runtime_info", op_runtime_info}, {"misuse_handler", op_misuse_handler}, {"rng_stir_close", op_rng_stir_close},
 };
 const size_t NOPS = sizeof OPS / sizeof OPS[0];
 // ops whose results depend on the random source (weighted up: the default generator and guarded allocation are named by the property)
@@ -478,7 +488,7 @@ struct C19 {
     static const char *name() { return "c19_threads"; }
     static const char *level() { return "exploration"; }
     static const char *rule() {
-        return "seeded plans: N in 2..16 real threads, each calling sodium_init() and then 0-12 operations drawn from a 45-entry table covering every API family (no barrier "
+        return "seeded plans: N in 2..16 real threads, each calling sodium_init() and then 0-12 operations drawn from a 47-entry table covering every API family (no barrier "
                "between init and workload), under RNG configuration {default sysrandom over simulated getrandom, internal, scripted} and lock variant " C19_LOCK_VARIANT
                ". Exactly one thread is runnable at a time; a seeded scheduler (random walk / PCT depth 1-4 / loser-first / coarse) decides at every instrumented access to "
                "tracked memory, every lock/unlock, atomic and wrapped system call. Oracles: own vector-clock happens-before race detector over the TSan compiler ABI "
@@ -698,7 +708,7 @@ struct C19 {
         Json as = Json::array();
         as.push("happens-before is the C11 one: mutex, atomics (acquire/release on a per-address clock), thread creation/exit; volatile gives no ordering");
         as.push("caller buffers are per thread (the property's premise) and untracked; races only through them are not in scope");
-        as.push("sodium_misuse, randombytes_close, randombytes_set_implementation, sodium_set_misuse_handler are process-configuration calls and not part of the concurrent workload");
+        as.push("sodium_misuse and randombytes_set_implementation are process-configuration calls and not part of the concurrent workload (sodium_set_misuse_handler, randombytes_stir and randombytes_close are)");
         as.push("a shadow cell keeps at most 6 accesses per 8 bytes; eviction can only lose a report (counted in probe shadow_evictions), never invent one");
         ev["assumptions"] = as;
         ev["x_lock_variant"] = C19_LOCK_VARIANT;
